@@ -281,7 +281,9 @@ def r_unary(repo, rep, R='R14.5'):
             absent = logic.excluded(conds, ('atom', IN))
             present = logic.implied(conds, ('atom', IN))
             r = st.ret
-            if absent:
+            # `if not unary_rules.get(x): return []` -- absent, or present with nothing configured: either way no result
+            nothing = ('or', (logic.neg(('atom', IN)), logic.neg(('atom', ('truthy', targets)))))
+            if absent or logic.implied(conds, nothing):
                 unknown += 1
                 empty = (r[0] == 'alloc' and r[1] == 'list' and not any(e[0] == 'call' and e[1][1][0] == 'attr' and e[1][1][1] == r for e in st.events)) \
                     or r == ('list', ())
@@ -296,7 +298,9 @@ def r_unary(repo, rep, R='R14.5'):
             if r[0] == 'listcomp' and len(r[2]) == 1:
                 it, filt = r[2][0]
                 elt = r[1]
-                is_elem = lambda t: t[0] == 'elem' and t[1] == it
+                is_elem = lambda t, it0=it: t[0] == 'elem' and t[1] == it0
+                if it == ('call', ('attr', N(table), 'get'), (N(x),), ()) and present:
+                    it = targets        # the entry fetched with .get, on a path where the key is known to be there
                 cat = None
                 if elt[0] == 'call' and elt[1] == N('CombinatorResult'):
                     cat = dict(elt[3]).get('cat', (elt[2] or (None,))[0])
